@@ -1,4 +1,5 @@
 import Revm.Proofs.InterpTop
+import Revm.Proofs.InterpTable
 /-! # C25 — memory-safe, terminating interpretation
 
 "For any legacy bytecode, calldata, gas limit and hardfork, and for any EOF container that passes validation,
@@ -203,6 +204,18 @@ theorem fatal_child_panics_counterexample (s : IState) (i : CallInputs) :
     insertOutcome (.call i)
       { result := .FatalExternalError, output := [], gasRemaining := 0, gasRefunded := 0 } s = .fault .panic := by
   rfl
+
+/-! ## the opcode table -/
+
+/-- kind-A tie of the dispatch: for every SpecId and every opcode byte, the first-instruction gate of the model
+(`decode`, the `check!` of the handler, `require_eof!` / `require_init_eof!`, undefined bytes, INVALID) is what the
+compiled interpreter did when `Gen/Tables.lean` was regenerated for this run (`spec_to_generic!` canonicalisation
+included) -/
+theorem opcode_gate_matches_table (spec : Nat) (codes : List Nat) (h : (spec, codes) ∈ Gen.opStatus)
+    (op : Nat) (hop : op < 256) : codes[op]? = some (gateOf (GasCalc.canon spec) op) := by
+  have h1 := List.all_eq_true.mp gate_table _ h
+  have h2 := List.all_eq_true.mp h1 op (List.mem_range.mpr hop)
+  simpa using h2
 
 /-! ## EOF -/
 
